@@ -409,4 +409,125 @@ theorem childrenFirstB_prefix {db : Db} {ps qs : List (Hash × List Hash)} (hpre
   rw [childrenFirstB_append] at h
   exact (Bool.and_eq_true _ _ ▸ h).1
 
+/-- one flushed batch of node puts -/
+def nodeBatch (c : List (Hash × List Hash)) : Event := .batch (c.map fun p => (Key.node p.1, some (Val.node p.2)))
+
+theorem apply_nodeBatch (db : Db) (c : List (Hash × List Hash)) : apply db (nodeBatch c) = c.foldl putNode db := by
+  unfold nodeBatch apply
+  induction c generalizing db with
+  | nil => rfl
+  | cons p rest ih => simp only [List.map_cons, List.foldl_cons]; exact ih _
+
+theorem applyAll_nodeBatches (db : Db) (chunks : List (List (Hash × List Hash))) :
+    applyAll db (chunks.map nodeBatch) = chunks.flatten.foldl putNode db := by
+  induction chunks generalizing db with
+  | nil => rfl
+  | cons c rest ih =>
+    simp only [List.map_cons, applyAll, List.foldl_cons, List.flatten_cons, List.foldl_append]
+    rw [apply_nodeBatch]
+    exact ih _
+
+/-! ### `Database.Commit`: lock balance -/
+
+theorem lockOps_append (xs ys : List Act) : lockOps (xs ++ ys) = lockOps xs ++ lockOps ys := by
+  induction xs with
+  | nil => rfl
+  | cons a rest ih => cases a <;> simp [lockOps, ih]
+
+theorem held_append (xs ys : List LockOp) :
+    held (xs ++ ys) = ((held xs).1 + (held ys).1, (held xs).2 + (held ys).2) := by
+  induction xs with
+  | nil => simp [held]
+  | cons a rest ih =>
+    cases a <;> simp only [List.cons_append, held, ih] <;> ext <;> simp <;> omega
+
+theorem writeBatch_lockOps (f : Option Nat) (s : CState) : lockOps (writeBatch f s).2.acts = lockOps s.acts := by
+  unfold writeBatch
+  split <;> simp [lockOps_append, lockOps]
+
+theorem preLoop_lockOps (limit : Nat) (f : Option Nat) : ∀ (pre : List (Hash × Nat)) (s : CState),
+    lockOps (preLoop limit f pre s).2.acts = lockOps s.acts := by
+  intro pre
+  induction pre with
+  | nil => intro s; rfl
+  | cons p rest ih =>
+    intro s
+    obtain ⟨h, sz⟩ := p
+    unfold preLoop
+    simp only
+    split
+    · split
+      · rename_i s2 hw
+        have := writeBatch_lockOps f { s with batch := s.batch ++ [(Key.preimage h, some Val.blob)], size := s.size + sz }
+        rw [hw] at this
+        exact this
+      · rename_i s2 hw
+        rw [ih]
+        have := writeBatch_lockOps f { s with batch := s.batch ++ [(Key.preimage h, some Val.blob)], size := s.size + sz }
+        rw [hw] at this
+        exact this
+    · rw [ih]
+
+theorem nodeLoop_lockOps (limit : Nat) (f : Option Nat) : ∀ (nodes : List (Hash × List Hash × Nat)) (s : CState),
+    lockOps (nodeLoop limit f nodes s).2.acts = lockOps s.acts := by
+  intro nodes
+  induction nodes with
+  | nil => intro s; rfl
+  | cons p rest ih =>
+    intro s
+    obtain ⟨h, cs, sz⟩ := p
+    unfold nodeLoop
+    simp only
+    split
+    · split
+      · rename_i s2 hw
+        have := writeBatch_lockOps f { s with batch := s.batch ++ [(Key.node h, some (Val.node cs))], size := s.size + sz }
+        rw [hw] at this
+        exact this
+      · rename_i s2 hw
+        rw [ih]
+        have := writeBatch_lockOps f { s with batch := s.batch ++ [(Key.node h, some (Val.node cs))], size := s.size + sz }
+        rw [hw] at this
+        exact this
+    · rw [ih]
+
+/-- the lock operations of a run of `Commit` (any inputs, any failing write) -/
+theorem commitRun_lockOps (fixed : Bool) (limit : Nat) (pre : List (Hash × Nat)) (nodes : List (Hash × List Hash × Nat))
+    (failAt : Option Nat) :
+    lockOps (commitRun fixed limit pre nodes failAt).1 =
+      if (preLoop limit failAt pre { acts := [.lk .rlock] }).1 = false then
+        (if fixed then [.rlock, .runlock] else [.rlock])
+      else if (nodeLoop limit failAt nodes (preLoop limit failAt pre { acts := [.lk .rlock] }).2).1 = false then [.rlock, .runlock]
+      else if (writeBatch failAt (nodeLoop limit failAt nodes (preLoop limit failAt pre { acts := [.lk .rlock] }).2).2).1 = false
+        then [.rlock, .runlock]
+      else [.rlock, .runlock, .lock, .unlock] := by
+  unfold commitRun
+  simp only
+  have hp := preLoop_lockOps limit failAt pre { acts := [.lk .rlock] }
+  cases hpl : preLoop limit failAt pre { acts := [.lk .rlock] } with
+  | mk okp sp =>
+    rw [hpl] at hp
+    simp only at hp
+    cases okp with
+    | false =>
+      simp only [if_true]
+      cases fixed <;> simp [lockOps_append, hp, lockOps]
+    | true =>
+      simp only [Bool.true_eq_false, if_false]
+      have hn := nodeLoop_lockOps limit failAt nodes sp
+      cases hnl : nodeLoop limit failAt nodes sp with
+      | mk okn sn =>
+        rw [hnl] at hn
+        simp only at hn
+        cases okn with
+        | false => simp [lockOps_append, hn, hp, lockOps]
+        | true =>
+          simp only [Bool.true_eq_false, if_false]
+          have hw := writeBatch_lockOps failAt sn
+          cases hwl : writeBatch failAt sn with
+          | mk okw sw =>
+            rw [hwl] at hw
+            simp only at hw
+            cases okw <;> simp [lockOps_append, hw, hn, hp, lockOps]
+
 end Aqv.ChainDb
